@@ -299,6 +299,32 @@ func genRegion(r *rand.Rand) *region {
 			return map[string]any{"loop_kind": sp.Kind, "n": len(sp.Vs), "head": gen.HexAll(sp.Vs[:3]...)}
 		}
 	case 7: // polygon with holes
+		if r.Intn(3) == 0 { // two separate discs, inverted once (nearly the whole sphere) or twice (the discs again)
+			rad := math.Min(size, 0.5)
+			x, y, z := gen.Frame(ctr)
+			a := gen.StarLoop(r, gen.AtPolar(x, y, z, rad*1.3, 0), 3+r.Intn(12), rad*0.6, rad)
+			b := gen.StarLoop(r, gen.AtPolar(x, y, z, rad*1.3, math.Pi), 3+r.Intn(12), rad*0.6, rad)
+			p := s2.PolygonFromLoops([]*s2.Loop{a.Loop(), b.Loop()})
+			ma, mb := ref.NewLoopModel(gen.Vs(a.Vs), origin, gen.RefDir), ref.NewLoopModel(gen.Vs(b.Vs), origin, gen.RefDir)
+			inDiscs := func(q s2.Point) bool { return ma.Contains(gen.V(q)) != mb.Contains(gen.V(q)) }
+			pts := append(append([]s2.Point{a.Center, b.Center}, a.Vs...), b.Vs...)
+			pts = append(pts, gen.BoundaryProbes(r, a.Vs, 6)...)
+			pts = append(pts, gen.BoundaryProbes(r, b.Vs, 6)...)
+			p.Invert()
+			rg.r, rg.kind, rg.diam = p, "PolygonInvertedOnce", 4
+			rg.in = func(q s2.Point) bool { return !inDiscs(q) }
+			if r.Intn(2) == 0 {
+				p.Invert()
+				rg.kind, rg.diam, rg.in = "PolygonInvertedTwice", 4.6*rad, inDiscs
+			} else {
+				for k := 0; k < 12; k++ {
+					pts = append(pts, gen.Uniform(r))
+				}
+			}
+			rg.points = pts
+			rg.desc = func() any { return map[string]any{"discs_center": gen.Hex(ctr), "radius": rad, "kind": rg.kind} }
+			break
+		}
 		p, in, pts := ringsPolygon(r, ctr, math.Min(size, 1.2))
 		rg.r, rg.kind, rg.diam, rg.in, rg.points = p, "Polygon", 2*math.Min(size, 1.2), in, pts
 		rg.desc = func() any { return map[string]any{"polygon_loops": p.NumLoops(), "center": gen.Hex(ctr)} }
